@@ -31,7 +31,7 @@ ASSUMPTIONS = [
 
 ASYNC = ["tridonic", "hasseb", "luba", "sci"]
 PLAIN = ["dapc", "off", "reset", "qlevel", "qpresent", "qdtr0"]
-DT = ["dtcmd", "dttwice", "dtquery", "dtquery8"]
+DT = ["dtcmd", "dttwice", "dtquery", "dtquery8", "appdt", "appdtq"]
 K24 = ["q24", "c24twice", "c24plain"]
 
 
